@@ -68,6 +68,17 @@ def interpretation(m, meta):
 
 
 def style(m, meta):
+    from term_image.image import ITerm2Image
+    try:
+        return _style(m, meta)
+    finally:
+        try:
+            del ITerm2Image.jpeg_quality
+        except Exception:  # noqa: BLE001
+            pass
+
+
+def _style(m, meta):
     """the style part: the model's string first, then every string up to length 5 over the alphabet of the sub-grammars, against the
     documented sub-grammar and meaning, on the real KittyImage / ITerm2Image"""
     import itertools
@@ -78,7 +89,12 @@ def style(m, meta):
     meth = {"L": "lines", "W": "whole", "A": "anim"}
     first = _s(m, "style_spec")
     cands = ([first] if first else []) + ["".join(t) for n in range(1, 6) for t in itertools.product("LWAzmc-019 x", repeat=n)]
-    for cls, doc in docs.items():
+    # what a specifier denotes does not depend on class-wide settings: the second pass has JPEG re-encoding enabled for the class
+    passes = [(cls_, doc_, None) for cls_, doc_ in docs.items()] + [(ITerm2Image, docs[ITerm2Image], 60)]
+    for cls, doc, class_quality in passes:
+        if class_quality is not None:
+            ITerm2Image.jpeg_quality = class_quality
+            cands = [c_ for c_ in cands if "c" in c_ and len(c_) <= 4]
         for spec in cands:
             mm = doc.fullmatch(spec)
             seen = {}
